@@ -16,8 +16,10 @@ RULE = ("case 'bad' = (well-formed DBC or SYM text: canmatrix's own output for a
         "at positions between complete statements, outside multi-line comments and outside a frame's signal list): the load must "
         "not raise, the normal form of the result must equal the one without the bad lines, the DBC reader's 'error with line no' "
         "output is compared line by line with the dispatcher model, the SYM reader must record one load error per malformed "
-        "statement. case 'cut' = the same texts cut at a byte position (quick: 25 positions per text, thorough: every position "
-        "of small texts / stride for large ones): the load must not raise and every frame and signal defined wholly before the cut "
+        "statement. case 'cut' = the same texts cut at a byte position (25 random positions per text plus up to three right after each kind of "
+        "punctuation character, i.e. inside a switch, a quoted text, a bracket; half of the texts also as UTF-8 files with characters "
+        "outside ASCII, read with the UTF-8 import option and cut inside multi-byte characters; thorough: in addition every position of "
+        "the first 4000 bytes of a DBC and a SYM text): the load must not raise and every frame and signal defined wholly before the cut "
         "keeps placement, byte order, signedness and scaling. Non-trivial = every distinct case.")
 EXHAUSTIVE = {"quick": False, "thorough": False}
 PARTIAL = ["only the control skeleton of the DBC reader (dispatcher, per-line error handling as a fold) is modelled and proved; that "
@@ -47,10 +49,13 @@ def samples():
     return SAMPLES
 
 
-def load(data, fmt):
+def load(data, fmt, enc=None):
     out = io.StringIO()
+    opts = {}
+    if enc:
+        opts = {"dbcImportEncoding": enc, "dbcImportCommentEncoding": enc, "symImportEncoding": enc}
     with contextlib.redirect_stdout(out):
-        db = canmatrix.formats.loads_flat(data if isinstance(data, bytes) else data.encode("iso-8859-1"), fmt)
+        db = canmatrix.formats.loads_flat(data if isinstance(data, bytes) else data.encode(enc or "iso-8859-1"), fmt, **opts)
     return db, out.getvalue()
 
 
@@ -224,6 +229,15 @@ def gen(rng, tier, shard, nshards):
             ks = sorted(ks)
             for k in ks:
                 yield {"op": "cut", "c": {"fmt": fmt, "text": text, "k": k}}
+            if rng.random() < 0.5:
+                # the same file in UTF-8 with characters outside ASCII, read with the UTF-8 import option and cut at byte positions:
+                # inside every multi-byte character and at some others
+                t8 = text.replace("degC", "\u00b0C").replace("rpm", "\u03a9pm").replace("frame comment", "Rahmen gr\u00f6\u00dfer").replace("sig comment", "Signal \u00b5")
+                raw = t8.encode("utf-8")
+                inside = [i for i, b in enumerate(raw) if 0x80 <= b < 0xC0]
+                kb = set(rng.sample(inside, min(len(inside), 12))) | {rng.randrange(len(raw) + 1) for _ in range(6)}
+                for k in sorted(kb):
+                    yield {"op": "cut", "c": {"fmt": fmt, "text": t8, "k": k, "enc": "utf-8"}}
     if tier == "thorough" and shard == 0:
         text = gen_text(rng, "dbc")[:4000]
         for k in range(len(text) + 1):
@@ -244,7 +258,7 @@ def sig_key(s):
 def observe(case):
     c = case["c"]
     fmt = c["fmt"]
-    base_db, _ = load(c["text"], fmt)
+    base_db, _ = load(c["text"], fmt, c.get("enc"))
     if case["op"] == "bad":
         lines = c["text"].split("\n")
         ins = sorted(enumerate(c["ins"]), key=lambda t: t[1][0])
@@ -280,9 +294,12 @@ def observe(case):
             r["expected_errors"] = sum(1 for _, _, kind in c["ins"] if kind != "unknown")
         return r
     k = c["k"]
-    data = c["text"].encode("iso-8859-1")[:k]
+    enc = c.get("enc")
+    data = c["text"].encode(enc or "iso-8859-1")[:k]
+    if enc:
+        k = len(data.decode(enc, "ignore"))       # the cut in characters of the text (a partial character does not count)
     try:
-        db, out = load(data, fmt)
+        db, out = load(data, fmt, enc)
     except Exception as e:  # noqa
         return {"raised": True, "kept": False, "exc": type(e).__name__ + ": " + str(e)[:100]}
     # which frames / signals are defined wholly before the cut
@@ -337,7 +354,7 @@ def project(impl):
 
 
 def features(case, impl):
-    yield "op=%s/%s" % (case["op"], case["c"]["fmt"])
+    yield "op=%s/%s%s" % (case["op"], case["c"]["fmt"], "/utf-8" if case["c"].get("enc") else "")
     if case["op"] == "bad":
         for _, b, kind in case["c"]["ins"]:
             yield "fault=" + kind
